@@ -208,14 +208,13 @@ Proof.
   - eapply fbc_loop_some; eauto.
 Qed.
 
-(* ---------- stall_relievable, outside the known class ---------- *)
-Theorem stall_relievable_outside_known o v : sel_wfb v = true -> known_stall o v = false ->
+(* ---------- stall_relievable when the mandatory condition holds ---------- *)
+Theorem stall_relievable_mandatory o v : sel_wfb v = true -> is_nil (level0 v) = false ->
+  should_mandatory o v = true -> len (level0 v) + l1_overlap v < o_max_open_files o ->
   exists out c, next_compaction o v [] = Ok out /\ nc_choice out = Some c.
 Proof.
-  intros Hwf K. destruct (next_compaction_total o v [] Hwf) as [out E]. exists out.
+  intros Hwf K1 K2 K3. destruct (next_compaction_total o v [] Hwf) as [out E]. exists out.
   assert (C : exists c, nc_choice out = Some c); [|destruct C as [c C]; exists c; split; assumption].
-  unfold known_stall in K. apply orb_false_iff in K. destruct K as [K K3]. apply orb_false_iff in K. destruct K as [K1 K2].
-  apply negb_false_iff in K2. apply N.leb_gt in K3.
   unfold next_compaction in E.
   destruct (first_some (find_trivial_move o v []) (List.seq 0 (length v - 1))) as [c0|] eqn:ET.
   - inversion E; subst out. cbn. eauto.
@@ -234,11 +233,6 @@ Proof.
     destruct (d_mand st) as [m|]; [|congruence]. inversion E; subst out. cbn. eauto.
 Qed.
 
-(* the class from the options: thresholds >= 1, mandatory thresholds not above the stall thresholds,
-   and max_open_files above the number of files in levels 0 and 1 *)
-Lemma level_size_nil : level_size [] = 0.
-Proof. reflexivity. Qed.
-
 Lemma l1_overlap_le v : sel_wfb v = true -> l1_overlap v <= len (nth 1 v []).
 Proof.
   intros Hwf. pose proof (sel_wfb_wf v Hwf) as (W & _ & _). unfold l1_overlap.
@@ -253,21 +247,3 @@ Proof.
   pose proof (ub_le_len (nth 1 v []) (ls_last b1)). lia.
 Qed.
 
-Theorem options_safe_not_known o v : sel_wfb v = true -> should_stall_ingest o v = true ->
-  options_safe o v = true -> known_stall o v = false.
-Proof.
-  intros Hwf HS HO. unfold options_safe in HO.
-  apply andb_prop in HO. destruct HO as [HO O5]. apply andb_prop in HO. destruct HO as [HO O4].
-  apply andb_prop in HO. destruct HO as [HO O3]. apply andb_prop in HO. destruct HO as [O1 O2].
-  apply N.leb_le in O1, O2, O3, O4. apply N.ltb_lt in O5.
-  unfold should_stall_ingest in HS. unfold known_stall.
-  assert (NE : is_nil (level0 v) = false).
-  { destruct (level0 v) eqn:EL; [|reflexivity]. exfalso. unfold len, level_size in HS. cbn in HS.
-    apply orb_prop in HS. destruct HS as [HS|HS]; apply N.leb_le in HS; unfold len in HS; cbn in HS; lia. }
-  rewrite NE. cbn [orb].
-  assert (MA : should_mandatory o v = true).
-  { unfold should_mandatory. apply orb_prop in HS. destruct HS as [HS|HS]; apply N.leb_le in HS.
-    - assert (E : (o_mandatory_files o <=? len (level0 v)) = true) by (apply N.leb_le; lia). rewrite E. reflexivity.
-    - assert (E : (o_mandatory_bytes o <=? level_size (level0 v)) = true) by (apply N.leb_le; lia). rewrite E. now rewrite orb_true_r. }
-  rewrite MA. cbn [negb orb]. apply N.leb_gt. pose proof (l1_overlap_le v Hwf). lia.
-Qed.
